@@ -92,3 +92,221 @@ theorem C20_match_head (g : IG) (k c : Nat) : (matchList g k c).head? = some c :
 example : isMatch { next := fun _ => [], same := fun _ _ => true } 1 0 (some 0) = true := by decide
 
 end Tealer.C20
+
+namespace Tealer.C20
+open Tealer.Regex
+
+/-- invariant of the search used for completeness; `G` = the instructions whose successor loop is still running -/
+structure Inv (g : IG) (plen n : Nat) (G : Nat → Prop) (st : St) : Prop where
+  nodup : st.visited.Nodup
+  bound : ∀ v ∈ st.visited, v < n
+  cov : ∀ c ∈ st.covered, c ∈ st.visited
+  recd : ∀ v ∈ st.visited, isMatch g plen 0 (some v) = true → matchList g (plen - 1) v ∈ st.matches_
+  closed : ∀ v ∈ st.visited, ¬ G v → ∀ w ∈ g.next v, w ∈ st.visited
+
+theorem length_le_of_nodup_lt' (l : List Nat) (n : Nat) (hn : l.Nodup) (hb : ∀ x ∈ l, x < n) : l.length ≤ n := by
+  induction n generalizing l with
+  | zero =>
+    cases l with
+    | nil => simp
+    | cons a t => exact absurd (hb a (by simp)) (by omega)
+  | succ k ih =>
+    -- remove `k` from the list
+    have h1 : (l.erase k).Nodup := hn.erase k
+    have h2 : ∀ x ∈ l.erase k, x < k := by
+      intro x hx
+      have hxl : x ∈ l := List.mem_of_mem_erase hx
+      have hne : x ≠ k := by
+        intro e; subst e
+        exact (List.Nodup.mem_erase_iff hn).mp hx |>.1 rfl
+      have := hb x hxl
+      omega
+    have := ih (l.erase k) h1 h2
+    have hlen : l.length ≤ (l.erase k).length + 1 := by
+      by_cases hk : k ∈ l
+      · rw [List.length_erase_of_mem hk]; omega
+      · rw [List.erase_of_not_mem hk]; omega
+    omega
+
+theorem find_complete (g : IG) (plen n : Nat) (hb : ∀ a, a < n → ∀ b ∈ g.next a, b < n) :
+    ∀ fuel cur st (G : Nat → Prop), cur < n → Inv g plen n G st → n + 1 ≤ fuel + st.visited.length →
+      Inv g plen n G (find g plen fuel cur st).2 ∧ cur ∈ (find g plen fuel cur st).2.visited ∧
+      (∀ v ∈ st.visited, v ∈ (find g plen fuel cur st).2.visited) ∧
+      (∀ m ∈ st.matches_, m ∈ (find g plen fuel cur st).2.matches_) := by
+  intro fuel
+  induction fuel with
+  | zero =>
+    intro cur st G hc hinv hf
+    exfalso
+    have := length_le_of_nodup_lt' st.visited n hinv.nodup hinv.bound
+    omega
+  | succ f ih =>
+    intro cur st G hc hinv hf
+    unfold find
+    split
+    · rename_i hvis
+      exact ⟨hinv, by simpa using hvis, fun _ h => h, fun _ h => h⟩
+    · rename_i hvis
+      have hcur : cur ∉ st.visited := by simpa using hvis
+      simp only []
+      -- the state after recording the visit and the possible match
+      let st1 : St := if isMatch g plen 0 (some cur) = true then
+          { visited := cur :: st.visited, matches_ := st.matches_ ++ [matchList g (plen - 1) cur], covered := st.covered }
+          else { visited := cur :: st.visited, matches_ := st.matches_, covered := st.covered }
+      have hv1 : st1.visited = cur :: st.visited := by simp only [st1]; split <;> rfl
+      have hc1 : st1.covered = st.covered := by simp only [st1]; split <;> rfl
+      have hm1 : ∀ m ∈ st.matches_, m ∈ st1.matches_ := by
+        intro m hm; simp only [st1]; split
+        · simp [hm]
+        · exact hm
+      have hinv1 : Inv g plen n (fun x => G x ∨ x = cur) st1 := by
+        refine ⟨?_, ?_, ?_, ?_, ?_⟩
+        · rw [hv1]; exact List.nodup_cons.mpr ⟨hcur, hinv.nodup⟩
+        · intro v hv; rw [hv1] at hv
+          rcases List.mem_cons.mp hv with rfl | h; exact hc; exact hinv.bound v h
+        · intro c hc'; rw [hc1] at hc'; rw [hv1]; exact List.mem_cons_of_mem _ (hinv.cov c hc')
+        · intro v hv hmatch; rw [hv1] at hv
+          rcases List.mem_cons.mp hv with rfl | h
+          · simp only [st1, hmatch, if_true]; simp
+          · exact hm1 _ (hinv.recd v h hmatch)
+        · intro v hv hG w hw; rw [hv1] at hv ⊢
+          rcases List.mem_cons.mp hv with rfl | h
+          · exact absurd (Or.inr rfl) hG
+          · exact List.mem_cons_of_mem _ (hinv.closed v h (fun hg => hG (Or.inl hg)) w hw)
+      -- the loop over the successors
+      have key : ∀ (nxs : List Nat) (acc : Bool × St), (∀ x ∈ nxs, x ∈ g.next cur) →
+          Inv g plen n (fun x => G x ∨ x = cur) acc.2 → (∀ v ∈ st1.visited, v ∈ acc.2.visited) →
+          (∀ m ∈ st1.matches_, m ∈ acc.2.matches_) →
+          let res := nxs.foldl (fun (acc : Bool × St) nx =>
+            if acc.2.covered.contains nx then acc else
+            let (r, st') := find g plen f nx acc.2
+            if r then (true, { st' with covered := cur :: st'.covered }) else (acc.1, st')) acc
+          Inv g plen n (fun x => G x ∨ x = cur) res.2 ∧ (∀ v ∈ acc.2.visited, v ∈ res.2.visited) ∧
+            (∀ m ∈ acc.2.matches_, m ∈ res.2.matches_) ∧ (∀ x ∈ nxs, x ∈ res.2.visited) := by
+        intro nxs
+        induction nxs with
+        | nil => intro acc _ h _ _; exact ⟨h, fun _ h => h, fun _ h => h, fun _ h => by cases h⟩
+        | cons x xs ihx =>
+          intro acc hsub hacc hsup hmsup
+          simp only [List.foldl_cons]
+          have hxn : x < n := hb cur hc x (hsub x (by simp))
+          -- one step
+          have hstep : ∃ acc' : Bool × St,
+              (if acc.2.covered.contains x then acc else
+                let (r, st') := find g plen f x acc.2
+                if r then (true, { st' with covered := cur :: st'.covered }) else (acc.1, st')) = acc' ∧
+              Inv g plen n (fun x => G x ∨ x = cur) acc'.2 ∧ (∀ v ∈ acc.2.visited, v ∈ acc'.2.visited) ∧
+              (∀ m ∈ acc.2.matches_, m ∈ acc'.2.matches_) ∧ x ∈ acc'.2.visited := by
+            split
+            · rename_i hcov
+              exact ⟨acc, rfl, hacc, fun _ h => h, fun _ h => h, hacc.cov x (by simpa using hcov)⟩
+            · have hfuel : n + 1 ≤ f + acc.2.visited.length := by
+                have h1 : (cur :: st.visited).length ≤ acc.2.visited.length := by
+                  have hnd : (cur :: st.visited).Nodup := List.nodup_cons.mpr ⟨hcur, hinv.nodup⟩
+                  have hsub' : (cur :: st.visited) ⊆ acc.2.visited := by
+                    intro v hv; exact hsup v (by rw [hv1]; exact hv)
+                  -- a duplicate-free list included in another is not longer
+                  have : ∀ (l1 l2 : List Nat), l1.Nodup → l1 ⊆ l2 → l1.length ≤ l2.length := by
+                    intro l1
+                    induction l1 with
+                    | nil => intro _ _ _; simp
+                    | cons a t iht =>
+                      intro l2 hnd hs
+                      have ha : a ∈ l2 := hs (by simp)
+                      have := iht (l2.erase a) (List.nodup_cons.mp hnd).2 (by
+                        intro y hy
+                        have hya : y ≠ a := by intro e; subst e; exact (List.nodup_cons.mp hnd).1 hy
+                        exact (List.mem_erase_of_ne hya).mpr (hs (List.mem_cons_of_mem _ hy)))
+                      rw [List.length_erase_of_mem ha] at this
+                      have hpos : 0 < l2.length := List.length_pos_of_mem ha
+                      simp only [List.length_cons]; omega
+                  exact this _ _ hnd hsub'
+                simp only [List.length_cons] at h1
+                omega
+              obtain ⟨hi, hx, hsv, hsm⟩ := ih x acc.2 (fun y => G y ∨ y = cur) hxn hacc hfuel
+              generalize hfx : find g plen f x acc.2 = res at hi hx hsv hsm
+              obtain ⟨r, st'⟩ := res
+              simp only []
+              split
+              · refine ⟨_, rfl, ?_, hsv, hsm, hx⟩
+                refine ⟨hi.nodup, hi.bound, ?_, hi.recd, hi.closed⟩
+                intro c hc'
+                simp only [List.mem_cons] at hc'
+                rcases hc' with rfl | h
+                · exact hsv c (hsup c (by rw [hv1]; simp))
+                · exact hi.cov c h
+              · exact ⟨_, rfl, hi, hsv, hsm, hx⟩
+          obtain ⟨acc', heq, hi', hsv', hsm', hx'⟩ := hstep
+          rw [heq]
+          obtain ⟨r1, r2, r3, r4⟩ := ihx acc' (fun y hy => hsub y (List.mem_cons_of_mem _ hy)) hi'
+            (fun v hv => hsv' v (hsup v hv)) (fun m hm => hsm' m (hmsup m hm))
+          refine ⟨r1, fun v hv => r2 v (hsv' v hv), fun m hm => r3 m (hsm' m hm), ?_⟩
+          intro y hy
+          rcases List.mem_cons.mp hy with rfl | h
+          · exact r2 y hx'
+          · exact r4 y h
+      -- put the pieces together
+      have hfin : ∀ (hit : Bool), hit = isMatch g plen 0 (some cur) →
+          let res := (g.next cur).foldl (fun (acc : Bool × St) nx =>
+            if acc.2.covered.contains nx then acc else
+            let (r, st') := find g plen f nx acc.2
+            if r then (true, { st' with covered := cur :: st'.covered }) else (acc.1, st')) (hit, st1)
+          Inv g plen n G res.2 ∧ cur ∈ res.2.visited ∧ (∀ v ∈ st.visited, v ∈ res.2.visited) ∧
+            (∀ m ∈ st.matches_, m ∈ res.2.matches_) := by
+        intro hit _
+        obtain ⟨r1, r2, r3, r4⟩ := key (g.next cur) (hit, st1) (fun _ h => h) hinv1 (fun _ h => h) (fun _ h => h)
+        refine ⟨?_, r2 cur (by rw [hv1]; simp), fun v hv => r2 v (by rw [hv1]; simp [hv]), fun m hm => r3 m (hm1 m hm)⟩
+        refine ⟨r1.nodup, r1.bound, r1.cov, r1.recd, ?_⟩
+        intro v hv hG w hw
+        by_cases hvc : v = cur
+        · subst hvc; exact r4 w hw
+        · exact r1.closed v hv (fun h => h.elim hG hvc) w hw
+      by_cases hit : isMatch g plen 0 (some cur) = true
+      · have := hfin true hit.symm
+        simp only [st1, hit, if_true] at this
+        simpa [hit] using this
+      · have hit' : isMatch g plen 0 (some cur) = false := by simpa using hit
+        have := hfin false hit'.symm
+        simp only [st1, hit'] at this
+        simpa [hit'] using this
+
+/-- COMPLETENESS OF THE MATCH SET: if the instructions reachable from the start label are among the `n` instruction
+    positions, every reachable instruction at which the pattern occurs (consecutively, in straight-line code) is reported,
+    with its instruction list.  With `C20_sound`: a match is reported at an instruction iff it is reachable and the pattern
+    occurs there.  (The `n + 1` fuel the model gives the search is shown sufficient here.) -/
+theorem C20_complete (g : IG) (plen n start : Nat) (hs : start < n) (hb : ∀ a, a < n → ∀ b ∈ g.next a, b < n)
+    (c : Nat) (hr : Reach g start c) (hm : isMatch g plen 0 (some c) = true) :
+    matchList g (plen - 1) c ∈ (matchRegex g plen n start).1 := by
+  have h0 : Inv g plen n (fun _ => False) ({} : St) :=
+    { nodup := List.nodup_nil
+      bound := fun v hv => nomatch hv
+      cov := fun v hv => nomatch hv
+      recd := fun v hv => nomatch hv
+      closed := fun v hv => nomatch hv }
+  obtain ⟨hinv, hstart, _, _⟩ := find_complete g plen n hb (n + 1) start {} (fun _ => False) hs h0 (by simp)
+  have hall : ∀ x, Reach g start x → x ∈ (find g plen (n + 1) start {}).2.visited := by
+    intro x hx
+    induction hx with
+    | refl => exact hstart
+    | step a b _ hab ih => exact hinv.closed a ih (fun h => h) b hab
+  unfold matchRegex
+  exact hinv.recd c (hall c hr) hm
+
+/-- reported ⇔ reachable occurrence -/
+theorem C20_exact (g : IG) (plen n start : Nat) (hs : start < n) (hb : ∀ a, a < n → ∀ b ∈ g.next a, b < n) (m : List Nat) :
+    m ∈ (matchRegex g plen n start).1 ↔
+      ∃ c, Reach g start c ∧ isMatch g plen 0 (some c) = true ∧ m = matchList g (plen - 1) c := by
+  constructor
+  · exact (C20_sound g plen n start).1 m
+  · rintro ⟨c, hr, hm, rfl⟩
+    exact C20_complete g plen n start hs hb c hr hm
+
+end Tealer.C20
+
+namespace Tealer.C20
+open Tealer.Regex
+/-- the hypotheses of `C20_exact` on a concrete graph with a loop (0 → 1 → {2, 0}): the one occurrence is reported -/
+example :
+    let g : IG := { next := fun c => if c == 0 then [1] else if c == 1 then [2, 0] else [], same := fun c k => c == 2 && k == 0 }
+    (matchRegex g 1 3 0).1 = [[2]] ∧ (0 < 3) ∧ (List.range 3).all (fun a => (g.next a).all (· < 3)) = true := by decide
+end Tealer.C20
